@@ -1336,6 +1336,42 @@ mod imp {
                     Ok(format!("kids={}", threads_entering(o, "k").len()))
                 }),
             });
+            // K: an <invoke> WITHOUT id in a state that is left and re-entered: the cancelled first child says "bye"
+            // from its onexit while it is being cancelled; the parent must ignore that event (and it must not be
+            // taken for an event of the second child)
+            let kid_k = child_doc(
+                r##"<state id="k"><onentry><send event="up" target="#_parent"/></onentry><onexit><send event="bye" target="#_parent"/><script>notify('kid-exit')</script></onexit></state>"##,
+            );
+            let doc_k = format!(
+                r##"<scxml {ns} name="park"><datamodel><data id="n" expr="0"/></datamodel><state id="a"><transition event="go" target="b"/></state>
+<state id="b"><invoke><content>{kid}</content></invoke>
+ <transition event="up" cond="n == 0" target="a2"><assign location="n" expr="1"/></transition>
+ <transition event="up"><script>mark('p-child-event', 'up2', _event.invokeid); notify('up2')</script></transition>
+ <transition event="bye"><script>mark('p-late', _event.name, _event.invokeid); notify('bye')</script></transition>
+ <transition event="fin"><script>notify('fin')</script></transition></state>
+<state id="a2"><transition target="b"/></state></scxml>"##,
+                ns = NS,
+                kid = kid_k
+            );
+            v.push(scen(
+                "reinvoke-without-id",
+                1,
+                2,
+                doc_k,
+                vec![("go", "up2+kid-exit"), ("fin", "fin")],
+                Box::new(|o: &Obs| {
+                    basic_outcome(o)?;
+                    let kids = threads_entering(o, "k");
+                    if kids.len() != 2 {
+                        return Err(("start-count".into(), format!("two entries of the invoking state started the invoke {} times", kids.len())));
+                    }
+                    let late = marks_of(o, "p-late");
+                    if !late.is_empty() {
+                        return Err(("event-after-cancel".into(), format!("the parent processed an event of the child it had cancelled: {:?}", late)));
+                    }
+                    Ok("ok".into())
+                }),
+            ));
         }
         if prop == "C15" {
             // routing: a parent with an invoked child and a sibling; every target form once, literal and targetexpr,
@@ -1839,6 +1875,33 @@ mod imp {
                         let sess = start(&ex, &doc, &log);
                         let _ = sess.sender.send(Box::new(Event::new_simple("go")));
                         let _ = sess.sender.send(Box::new(Event::new_simple("go2")));
+                        cancel_and_join(sess);
+                    })
+                }),
+                oracle: Box::new(|o: &Obs| {
+                    basic_outcome(o)?;
+                    Ok("finished".into())
+                }),
+            });
+            // (h) a delayed send WITH an id fires (its callback updates the session's bookkeeping and then uses the I/O
+            // processor) while the session thread itself is inside an immediate send on the same processor
+            v.push(Scenario {
+                name: "own-delayed-send-with-id-vs-immediate-send",
+                quick_bound: 1,
+                thorough_bound: 2,
+                atomics: false,
+                body: Box::new(move |log, _notes| {
+                    Box::new(move || {
+                        let ex = FsmExecutor::new_without_io_processor();
+                        let doc = format!(
+                            r##"<scxml {ns} name="tmr"><state id="a">
+<onentry><send id="t1" event="tick" delay="10ms"/><send id="t2" event="tock" delay="20ms"/></onentry>
+<transition event="go"><send event="x1"/><send event="x2" target="#_internal"/><send event="x3"/></transition>
+<transition event="*"><script>mark('got', _event.name)</script></transition></state></scxml>"##,
+                            ns = NS
+                        );
+                        let sess = start(&ex, &doc, &log);
+                        let _ = sess.sender.send(Box::new(Event::new_simple("go")));
                         cancel_and_join(sess);
                     })
                 }),
